@@ -152,12 +152,20 @@ class Ctx:
         names = []
         for path in [self.property_file()] + [q for q in self.import_closure()
                                               if os.sep + "Properties" + os.sep in q and q != self.property_file()]:
-            src = open(path, encoding="utf-8").read()
-            ns = re.search(r"^namespace\s+(\S+)", src, re.M)
-            ns = ns.group(1) if ns else ""
-            for t in re.findall(r"^theorem\s+(\S+)", strip_lean_comments(src), re.M):
-                if not t.endswith("_placeholder"):
-                    names.append((ns + "." if ns else "") + t)
+            src = strip_lean_comments(open(path, encoding="utf-8").read())
+            stack = []
+            for line in src.splitlines():
+                m = re.match(r"^namespace\s+(\S+)", line)
+                if m:
+                    stack.append(m.group(1))
+                    continue
+                m = re.match(r"^end\s+(\S+)", line)
+                if m and stack and stack[-1] == m.group(1):
+                    stack.pop()
+                    continue
+                m = re.match(r"^(?:private\s+|protected\s+)?theorem\s+(\S+)", line)
+                if m and not m.group(1).endswith("_placeholder"):
+                    names.append(".".join(stack + [m.group(1)]))
         self.theorems = [n.split(".")[-1] for n in names]
         if not self.build_ok:
             return
